@@ -115,6 +115,10 @@ func tupleFromArgs(callable bool, args px.List) *TupleType {
 	}
 
 	if argc == 0 {
+		if rng == nil {
+			// an empty list of types, Tuple[[]] or Callable[[]]: no elements
+			rng = IntegerTypeZero
+		}
 		if rng != nil && *rng == *IntegerTypeZero {
 			return tupleTypeEmpty
 		}
